@@ -60,7 +60,7 @@ def _case(draw):
     seed = draw(st.one_of(st.integers(0, 2 ** 64), st.integers(0, 10), st.text(max_size=5),
                           st.binary(max_size=5)))
     neg = st.sampled_from(_NEG).map(lambda p: {"t": "str", "pattern": p})
-    pat = regexgen.pattern_strategy(3).map(lambda p: {"t": "str", "pattern": regexgen.render(p)})
+    pat = regexgen.cheap_pattern_strategy(3).map(lambda p: {"t": "str", "pattern": regexgen.render(p)})
     gen = specs.spec_strategy(depth=draw(st.sampled_from([0, 1, 2])), sat=True).map(_fix)
     one = st.one_of(neg, neg, pat, gen, gen,
                     st.builds(lambda a: {"t": "list", "form": "typed", "elem": a, "len": ["range", 2, 5]},
